@@ -233,11 +233,80 @@ func (h *StreamHandler) validatePath(path string) error {
 			return nil
 		}
 		if isPathAllowed(normalizedPath, pattern) {
-			return nil
+			// The path is allowed as written; it must also be allowed once
+			// symbolic links in any of its components are resolved.
+			return h.validateResolvedPath(normalizedPath)
 		}
 	}
 
 	return fmt.Errorf("path not in allowed list: %s", path)
+}
+
+// validateResolvedPath resolves the symbolic links in path and checks that the
+// real location is within the allowed paths as well. This prevents escaping the
+// allowed paths through a symlink in a parent directory of the requested path.
+func (h *StreamHandler) validateResolvedPath(path string) error {
+	realPath, err := resolveExistingPath(path)
+	if err != nil {
+		return fmt.Errorf("cannot resolve path: %w", err)
+	}
+	if realPath == path {
+		return nil
+	}
+
+	for _, pattern := range h.cfg.AllowedPaths {
+		if isPathAllowed(realPath, pattern) || isPathAllowed(realPath, resolvePatternBase(pattern)) {
+			return nil
+		}
+	}
+
+	return fmt.Errorf("symlink target not allowed: %s resolves to %s, which is not in allowed list", path, realPath)
+}
+
+// resolveExistingPath returns path with all symbolic links resolved. If path
+// does not exist yet (e.g. an upload destination), the deepest existing parent
+// directory is resolved and the remaining elements are appended to it. Dangling
+// symlinks are rejected because creating a file through them would follow them.
+func resolveExistingPath(path string) (string, error) {
+	realPath, err := filepath.EvalSymlinks(path)
+	if err == nil {
+		return realPath, nil
+	}
+	if !os.IsNotExist(err) {
+		return "", err
+	}
+
+	dir := filepath.Dir(path)
+	if dir == path {
+		return "", err
+	}
+	realDir, err := resolveExistingPath(dir)
+	if err != nil {
+		return "", err
+	}
+
+	realPath = filepath.Join(realDir, filepath.Base(path))
+	if info, err := os.Lstat(realPath); err == nil && info.Mode()&os.ModeSymlink != 0 {
+		return "", fmt.Errorf("dangling symlink: %s", realPath)
+	}
+	return realPath, nil
+}
+
+// resolvePatternBase returns pattern with the symbolic links of its base
+// directory (the part before any glob element) resolved, so that an allowed
+// path configured through a symlink (e.g. /tmp on macOS) keeps working when
+// request paths are compared after resolution.
+func resolvePatternBase(pattern string) string {
+	clean := normalizePath(pattern)
+	base := patternBaseDir(pattern)
+	if base == "" || !strings.HasPrefix(clean, base) {
+		return pattern
+	}
+	realBase, err := filepath.EvalSymlinks(base)
+	if err != nil || realBase == base {
+		return pattern
+	}
+	return realBase + clean[len(base):]
 }
 
 // isPathAllowed checks if a path matches an allowed pattern.
